@@ -284,6 +284,9 @@ func RemoveTypePtr(t reflect.Type) reflect.Type {
 // RemoveValuePtr 移除多指针
 func RemoveValuePtr(t reflect.Value) reflect.Value {
 	for t.Kind() == reflect.Ptr {
+		if t.IsNil() { // nil 指针不能再解引用, 直接返回由调用方处理
+			return t
+		}
 		t = t.Elem()
 	}
 	return t
